@@ -42,6 +42,7 @@ import (
 	"os"
 	"path/filepath"
 	"regexp"
+	"sort"
 	"strconv"
 	"strings"
 
@@ -429,17 +430,10 @@ func modelTable(callLean string) (map[string]sig, bool) {
 	return nil, false
 }
 
-func main() {
-	repo := flag.String("repo", "/repo", "repository root")
-	out := flag.String("out", "", "output directory (…/lean/Liquid/Generated)")
-	flag.Parse()
-	if *out == "" {
-		fatal("-out is required")
-	}
-	abs, err := filepath.Abs(*repo)
-	if err != nil {
-		fatal("%v", err)
-	}
+// generate loads <repo>/filters and returns the text of Filters.lean and the number of registrations;
+// the facts that break the obligation are left in `broken`. callLean: Liquid/Call.lean (diagnostics).
+func generate(repo, callLean string) (content string, n int, err error) {
+	broken = nil
 	env := []string{}
 	for _, kv := range os.Environ() {
 		if !strings.HasPrefix(kv, "GOFLAGS=") {
@@ -451,18 +445,18 @@ func main() {
 	cfg := &packages.Config{
 		Mode: packages.NeedName | packages.NeedFiles | packages.NeedCompiledGoFiles | packages.NeedImports |
 			packages.NeedDeps | packages.NeedTypes | packages.NeedSyntax | packages.NeedTypesInfo,
-		Dir: abs, Env: env, Tests: false,
+		Dir: repo, Env: env, Tests: false,
 	}
 	pkgs, err := packages.Load(cfg, "./filters")
 	if err != nil {
-		fatal("go/packages could not load %s/filters: %v", abs, err)
+		return "", 0, fmt.Errorf("go/packages could not load %s/filters: %v", repo, err)
 	}
 	if len(pkgs) != 1 {
-		fatal("expected one package for ./filters in %s, got %d", abs, len(pkgs))
+		return "", 0, fmt.Errorf("expected one package for ./filters in %s, got %d", repo, len(pkgs))
 	}
 	pkg := pkgs[0]
 	if len(pkg.Errors) > 0 {
-		fatal("package filters has errors: %v", pkg.Errors[0])
+		return "", 0, fmt.Errorf("package filters has errors: %v", pkg.Errors[0])
 	}
 	w := &walker{pkg: pkg, decls: map[*types.Func]*ast.FuncDecl{}, visited: map[*types.Func]bool{},
 		qf: func(p *types.Package) string {
@@ -489,10 +483,10 @@ func main() {
 		}
 	}
 	if root == nil {
-		fatal("func AddStandardFilters not found in %s/filters", abs)
+		return "", 0, fmt.Errorf("func AddStandardFilters not found in %s/filters", repo)
 	}
 	if root.Type().(*types.Signature).Params().Len() != 1 {
-		fatal("AddStandardFilters: expected exactly one parameter (the filter dictionary)")
+		return "", 0, fmt.Errorf("AddStandardFilters: expected exactly one parameter (the filter dictionary)")
 	}
 	w.walkFunc(root, 0)
 	if len(w.sigs) == 0 {
@@ -500,7 +494,7 @@ func main() {
 	}
 
 	// diagnostics against the model's table
-	if model, ok := modelTable(filepath.Join(*out, "..", "Call.lean")); ok {
+	if model, ok := modelTable(callLean); ok {
 		seen := map[string]bool{}
 		for _, s := range w.sigs {
 			if seen[s.name] {
@@ -515,7 +509,12 @@ func main() {
 				brk("filter %q: the source registers %s = %s, the model table stdFilters has %s", s.name, s.goSig, s.short(), m.short())
 			}
 		}
-		for name, m := range model {
+		var names []string
+		for name := range model {
+			names = append(names, name)
+		}
+		sort.Strings(names)
+		for _, name := range names {
 			if !seen[name] {
 				unresolved := false
 				for _, b := range broken {
@@ -524,7 +523,7 @@ func main() {
 					}
 				}
 				if !unresolved {
-					brk("filter %q of the model table stdFilters (%s) is not registered by AddStandardFilters", name, m.short())
+					brk("filter %q of the model table stdFilters (%s) is not registered by AddStandardFilters", name, model[name].short())
 				}
 			}
 		}
@@ -556,6 +555,24 @@ func main() {
 		}
 		sb.WriteString("-/\n")
 	}
+	return sb.String(), len(w.sigs), nil
+}
+
+func main() {
+	repo := flag.String("repo", "/repo", "repository root")
+	out := flag.String("out", "", "output directory (…/lean/Liquid/Generated)")
+	flag.Parse()
+	if *out == "" {
+		fatal("-out is required")
+	}
+	abs, err := filepath.Abs(*repo)
+	if err != nil {
+		fatal("%v", err)
+	}
+	content, n, err := generate(abs, filepath.Join(*out, "..", "Call.lean"))
+	if err != nil {
+		fatal("%v", err)
+	}
 	for _, b := range broken {
 		fmt.Printf("OBLIGATION %s BROKEN %s\n", obligation, b)
 	}
@@ -563,16 +580,16 @@ func main() {
 		fatal("%v", err)
 	}
 	dst := filepath.Join(*out, "Filters.lean")
-	if old, err := os.ReadFile(dst); err == nil && string(old) == sb.String() {
-		fmt.Printf("T2: %s unchanged (%d filters)\n", dst, len(w.sigs))
+	if old, err := os.ReadFile(dst); err == nil && string(old) == content {
+		fmt.Printf("T2: %s unchanged (%d filters)\n", dst, n)
 		return
 	}
 	tmp := dst + ".tmp"
-	if err := os.WriteFile(tmp, []byte(sb.String()), 0o644); err != nil {
+	if err := os.WriteFile(tmp, []byte(content), 0o644); err != nil {
 		fatal("%v", err)
 	}
 	if err := os.Rename(tmp, dst); err != nil {
 		fatal("%v", err)
 	}
-	fmt.Printf("T2: wrote %s (%d filters)\n", dst, len(w.sigs))
+	fmt.Printf("T2: wrote %s (%d filters)\n", dst, n)
 }
